@@ -1,4 +1,140 @@
-/-! Line-protocol driver for property C03 (stub until the model exists). -/
-def main (_args : List String) : IO UInt32 := do
-  IO.eprintln "drv_c03: no model yet"
-  return 2
+import CprocVerif.Spec.Qbe
+import CprocVerif.Spec.QbeParse
+import CprocVerif.Spec.QbeWf
+/-! Line-protocol driver for property C03 (QBE IL: parser, well-formedness, interpreter). -/
+
+open CprocVerif.Qbe
+
+def parseHexOrDec (s : String) : Option Nat :=
+  if s.startsWith "0x" then
+    (s.drop 2).toString.foldl (fun acc c =>
+      acc.bind fun n =>
+        if c.isDigit then some (n * 16 + (c.toNat - 48))
+        else if 'a' ≤ c ∧ c ≤ 'f' then some (n * 16 + (c.toNat - 87))
+        else if 'A' ≤ c ∧ c ≤ 'F' then some (n * 16 + (c.toNat - 55))
+        else none) (some 0)
+  else if s.startsWith "-" then
+    (s.drop 1).toString.toNat?.map fun n => (2 ^ 64 - n % 2 ^ 64) % 2 ^ 64
+  else s.toNat?
+
+/-- `w:5`, `l:18446744073709551615`, `d:0x3ff0000000000000`, `s:0x3f800000` -/
+def parseArg (s : String) : Except String (Ty × RVal) :=
+  match s.splitOn ":" with
+  | [k, v] =>
+    match parseHexOrDec v with
+    | none => .error ("bad argument value: " ++ s)
+    | some n =>
+      match k with
+      | "w" => .ok (.base .w, ⟨.w, (n % 2 ^ 32).toUInt64⟩)
+      | "l" => .ok (.base .l, ⟨.l, n.toUInt64⟩)
+      | "s" => .ok (.base .s, ⟨.s, (n % 2 ^ 32).toUInt64⟩)
+      | "d" => .ok (.base .d, ⟨.d, n.toUInt64⟩)
+      | _ => .error ("bad argument class: " ++ s)
+  | _ => .error ("bad argument: " ++ s)
+
+def parseArgs (as : List String) : Except String (List (Ty × RVal)) :=
+  as.mapM parseArg
+
+def defaultFuel : Nat := 100000000
+
+def loadModule (file : String) : IO (Except String Module) := do
+  try
+    let bytes ← IO.FS.readBinFile file
+    pure (parseModuleBytes bytes)
+  catch e =>
+    pure (.error ("cannot read " ++ file ++ ": " ++ (toString e).replace "\n" " "))
+
+def countDefs (m : Module) : Nat × Nat × Nat :=
+  m.defs.foldl (fun (acc : Nat × Nat × Nat) d =>
+    match d with
+    | .func _ => (acc.1 + 1, acc.2.1, acc.2.2)
+    | .data _ => (acc.1, acc.2.1 + 1, acc.2.2)
+    | .type _ => (acc.1, acc.2.1, acc.2.2 + 1)) (0, 0, 0)
+
+def cmdWf (files : List String) : IO UInt32 := do
+  let out ← IO.getStdout
+  for f in files do
+    match (← loadModule f) with
+    | .error e => out.putStrLn ("bad parse: " ++ e)
+    | .ok m =>
+      match wf m with
+      | .error e => out.putStrLn ("bad " ++ e)
+      | .ok () =>
+        let (nf, nd, nt) := countDefs m
+        out.putStrLn s!"ok {nf} {nd} {nt}"
+  return 0
+
+def b01 (b : Bool) : String := if b then "1" else "0"
+
+def cmdSizes (file : String) : IO UInt32 := do
+  match (← loadModule file) with
+  | .error e => IO.println ("bad parse: " ++ e); return 1
+  | .ok m =>
+    for d in m.datas do
+      IO.println s!"{d.name} {dataSize d} {dataAlign d} {b01 d.export} {b01 d.thread}"
+    return 0
+
+def cmdImage (file : String) : IO UInt32 := do
+  match (← loadModule file) with
+  | .error e => IO.println ("bad parse: " ++ e); return 1
+  | .ok m =>
+    for d in m.datas do
+      let (img, rel) := d.image
+      let rs := rel.foldl (fun s r => s ++ s!" reloc {r.off} {r.sym} {r.addend.toNat}") ""
+      IO.println s!"{d.name} {dataAlign d} {hexBytes img}{rs}"
+    return 0
+
+/-- Split `--fuel N` out of an argument list. -/
+def takeFuel : List String → Nat → List String → Nat × List String
+  | "--fuel" :: n :: rest, fuel, acc => takeFuel rest (n.toNat?.getD fuel) acc
+  | a :: rest, fuel, acc => takeFuel rest fuel (a :: acc)
+  | [], fuel, acc => (fuel, acc.reverse)
+
+def cmdRun (file func : String) (rest : List String) : IO UInt32 := do
+  match (← loadModule file) with
+  | .error e => IO.println ("bad parse: " ++ e); return 1
+  | .ok m =>
+    let (fuel, as) := takeFuel rest defaultFuel []
+    match parseArgs as with
+    | .error e => IO.println ("bad " ++ e); return 1
+    | .ok args =>
+      let p := Prog.ofModule m
+      let o := runFunc p builtinExt func args fuel
+      let out ← IO.getStdout
+      for l in o.trace do out.putStrLn l
+      out.putStrLn o.end.render
+      return 0
+
+def cmdRunMany (file : String) : IO UInt32 := do
+  match (← loadModule file) with
+  | .error e => IO.println ("bad parse: " ++ e); return 1
+  | .ok m =>
+    let p := Prog.ofModule m
+    let stdin ← IO.getStdin
+    let out ← IO.getStdout
+    repeat
+      let line ← stdin.getLine
+      if line.isEmpty then break
+      let ws := (line.trimAscii.toString.splitOn " ").filter (· ≠ "")
+      match ws with
+      | [] => pure ()
+      | func :: rest =>
+        let (fuel, as) := takeFuel rest defaultFuel []
+        match parseArgs as with
+        | .error e => out.putStrLn ("bad " ++ e)
+        | .ok args =>
+          let o := runFunc p builtinExt func args fuel
+          out.putStrLn (" ; ".intercalate (o.trace.toList ++ [o.end.render]))
+    out.flush
+    return 0
+
+def main (args : List String) : IO UInt32 := do
+  match args with
+  | "wf" :: files => cmdWf files
+  | ["sizes", file] => cmdSizes file
+  | ["image", file] => cmdImage file
+  | "run" :: file :: func :: rest => cmdRun file func rest
+  | ["runmany", file] => cmdRunMany file
+  | _ =>
+    IO.eprintln "usage: drv_c03 wf FILE… | sizes FILE | image FILE | run FILE FUNC [--fuel N] ARG… | runmany FILE"
+    return 2
